@@ -222,6 +222,8 @@ def bounded_contract(c: Contract, tier: str, seed: int, gen: Callable | None = N
 def prove_contract(c: Contract, registry: dict[str, Contract], tier: str, call=None, hurry: bool = False) -> dict:
     """Proof rung for one function.  Returns a plain-data report (picklable)."""
     from pyvc import solve
+    from pyvc.types import reset_names
+    reset_names()
     t0 = time.time()
     eng = Engine(REPO, registry)
     rep: dict[str, Any] = {"function": c.name, "qualname": c.qualname, "rung": "proved", "obligations": 0,
